@@ -256,6 +256,47 @@ int main(int argc, char** argv)
       }
       if(se) { bool good = (long)err.size() == sz; for(long i = 0; good && i < sz; ++i) if((unsigned char)err[i] != (unsigned char)('A' + i % 19)) good = false; if(!good) vf::violation("C20:process:stderr", cs, vf::fmt("read %ld bytes from stderr, child wrote %ld", (long)err.size(), sz)); }
     }
+    // (d) two processes whose lifetimes overlap: closing, joining, killing or destroying one must not disturb the streams of the other
+    //     (descriptor numbers are reused by the kernel: a descriptor closed twice is somebody else's the second time)
+    for(int openSecond = 0; openSecond < 2; ++openSecond) for(int finish = 0; finish < 3; ++finish) for(int firstDone = 0; firstDone < 2; ++firstDone) for(int withErr = 0; withErr < 2; ++withErr)
+    {
+      if(!sh.take()) continue;
+      uint streams2 = Process::stdoutStream | (withErr ? (uint)Process::stderrStream : 0u);
+      std::string cs = vf::fmt("two processes: second opened %s close(stdin) of the first, first %s, %s finishes first, second streams=%u",
+                               openSecond ? "after" : "before", finish == 0 ? "joined" : finish == 1 ? "killed after its output was read" : "destroyed", firstDone ? "the first" : "the second", streams2);
+      vf::crumb("launch-two", sh.token(), cs);
+      vf::watchdog_arm(30000);
+      vf::hit("two_process_runs"); vf::hit("distinct_nontrivial");
+      const char* av1[] = {"argv0", "io", "4", "0", "7", "1"};
+      bool se2 = (streams2 & Process::stderrStream) != 0;
+      const char* av2[] = {"argv0", "io", "3", se2 ? "3" : "0", "5", "0"};
+      Process* p1 = new Process(); Process p2;
+      bool bad = false;
+      if(!p1->open(S(child), 6, (char* const*)av1, Process::stdinStream | Process::stdoutStream)) { vf::violation("C20:process:open", cs, "open of the first process failed"); delete p1; continue; }
+      if(!openSecond && !p2.open(S(child), 6, (char* const*)av2, streams2)) { vf::violation("C20:process:open", cs, "open of the second process failed"); bad = true; }
+      if(p1->write("wxyz", 4) != 4) { vf::violation("C20:process:stdin", cs, "write to the first child's stdin failed"); bad = true; }
+      p1->close(Process::stdinStream);
+      if(openSecond && !bad && !p2.open(S(child), 6, (char* const*)av2, streams2)) { vf::violation("C20:process:open", cs, "open of the second process failed"); bad = true; }
+      std::string out1, err1, out2, err2; uint32 code1 = 99, code2 = 99;
+      bool ok1 = true, ok2 = true, j1 = true, j2 = true;
+      for(int step = 0; step < 2 && !bad; ++step)
+      {
+        bool doFirst = (step == 0) == (firstDone != 0);
+        if(doFirst)
+        {
+          ok1 = readAll(*p1, Process::stdoutStream, out1, err1);
+          if(finish == 0) j1 = p1->join(code1); else if(finish == 1) { p1->kill(); code1 = 7; } else { delete p1; p1 = 0; code1 = 7; }
+        }
+        else { ok2 = readAll(p2, streams2 & (Process::stdoutStream | Process::stderrStream), out2, err2); j2 = p2.join(code2); }
+      }
+      delete p1;
+      if(bad) continue;
+      std::string head1 = "IN 4 ", want2 = "IN 0 0\nabc", wantErr2 = se2 ? "ABC" : "";
+      if(!ok1 || !j1 || out1.compare(0, head1.size(), head1) != 0 || out1.size() < 4 || out1.substr(out1.size() - 4) != "abcd" || code1 != 7)
+        vf::violation("C20:process:overlap", cs, "first process: read ok=" + vf::fmt("%d join=%d code=%u", (int)ok1, (int)j1, (unsigned)code1) + " output '" + vf::show(out1) + "'");
+      if(!ok2 || !j2 || out2 != want2 || err2 != wantErr2 || code2 != 5)
+        vf::violation("C20:process:overlap", cs, "second process: read ok=" + vf::fmt("%d join=%d code=%u", (int)ok2, (int)j2, (unsigned)code2) + " stdout '" + vf::show(out2) + "' stderr '" + vf::show(err2) + "'");
+    }
     // (c) exit codes
     for(int code = 0; code < 256; ++code)
     {
